@@ -230,6 +230,123 @@ def run_program(ctx, bt, spec):
                 return
 
 
+# ---------------------------------------------------------------- RenormalizedFixedIncomeResult (the "renormalised result" anchor)
+def renorm_protocol(ctx, bt, n, corr="report:renorm[C17]", fixed=None):
+    """Finished fixed-income backtests: `RenormalizedFixedIncomeResult(v, backtest)` (the real constructor; its price frame) vs
+    `Bt.Renorm.renormPrices` on the strategy's recorded value / flows rows, and the clauses of the statement judged directly:
+    first row PAR, each later row moves by PAR x (change in value net of flows) / v, and - when the strategy's recorded notional
+    was v on every earlier date - the series is the strategy's own index."""
+    from .. import leanrun
+    cases, lines = [], []
+    todo = [None] * n if fixed is None else list(fixed)
+    for item in todo:
+        spec = gen_program(ctx.rng, winddown=False) if item is None else {k: v for k, v in item.items() if k != "renorm_v"}
+        ctx.evaluations += 1
+        if item is None and ctx.rng.random() < 0.5:
+            # a book held at one notional throughout: par-based weights whose absolute values sum to 1, constant schedule
+            par_based = [nm for nm, k in zip(spec["names"], spec["kinds"]) if k in (1, 2)]
+            share = {1: [1.0], 2: [0.5, -0.5], 3: [0.5, 0.25, 0.25], 4: [0.25, -0.25, 0.25, 0.25]}[len(par_based)]
+            for nm, w in zip(par_based, share):
+                spec["weights"][nm] = w
+            nv = float(ctx.rng.choice([1000, 2000, 50000]))
+            spec["notional"] = [nv] * len(spec["dates"])
+            spec["sched"] = ctx.rng.choice(["RunDaily", "RunOnce"])
+            ctx.count("renorm:constant-notional-programs")
+        try:
+            b = build_program(bt, spec)
+            b.run()
+        except Exception as e:  # noqa
+            ctx.count("renorm:program-raised:" + E.classify_exc(e))
+            continue
+        s = b.strategy
+        T = len(b.dates)
+        values = [float(x) for x in np.asarray(s.values.values, dtype=float)]
+        flows = [float(x) for x in np.asarray(s.flows.values, dtype=float)]
+        notl = [float(x) for x in np.asarray(s.notional_values.values, dtype=float)]
+        index = [float(x) for x in np.asarray(s.prices.values, dtype=float)]
+        held = notl[1] if T > 1 else 0.0
+        vs = [held if abs(held) > 0 else 1000.0, float(ctx.rng.choice([1.0, 1000.0, 12345.678, 1e6]))]
+        if ctx.rng.random() < 0.1:
+            vs.append(0.0)
+        if item is not None:
+            vs = [item["renorm_v"]]
+        for v in vs:
+            via = "constructor"
+            try:
+                res = bt.backtest.RenormalizedFixedIncomeResult(v, b)
+                real = [float(x) for x in np.asarray(res.prices[b.name].values, dtype=float)]
+            except Exception as e:  # noqa  (ffn's statistics can refuse a degenerate series; the price rule itself is then called directly)
+                ctx.count("renorm:constructor-raised:" + type(e).__name__)
+                via = "_price"
+                try:
+                    real = [float(x) for x in np.asarray(bt.backtest.RenormalizedFixedIncomeResult._price(None, s, v).values, dtype=float)]
+                except Exception as e2:  # noqa
+                    ctx.count("renorm:_price-raised:" + type(e2).__name__)
+                    continue
+            ctx.count("renorm:via-" + via)
+            rd = dict(spec, renorm_v=v)
+            par = float(bt.core.PAR)
+            # ---- the statement, judged on the real output
+            if len(real) != T:
+                ctx.violation("C17/renorm-length", "renormalised series has %d rows for %d dates" % (len(real), T), rd)
+                continue
+            if v != 0.0:
+                if real[0] != par:
+                    ctx.violation("C17/renorm-first-row", "renormalised series starts at %r, not PAR %r" % (real[0], par), rd)
+                bad = False
+                for t in range(1, T):
+                    step = par * ((values[t] - values[t - 1]) - flows[t]) / v
+                    if not abs((real[t] - real[t - 1]) - step) <= 1e-9 * max(1.0, abs(real[t]), abs(real[t - 1]), abs(step)):
+                        ctx.violation("C17/renorm-step", "date#%d: renormalised price moves by %r, expected PAR x (%r - %r - %r) / %r = %r"
+                                      % (t, real[t] - real[t - 1], values[t], values[t - 1], flows[t], v, step), rd)
+                        bad = True
+                        break
+                # the base of date t's return is the previous date's notional, or the date's own when that was negligible (opening the book)
+                bases = [(notl[t - 1] if abs(notl[t - 1]) >= 1e-16 else notl[t]) for t in range(1, T)]
+                moved = [t for t in range(1, T) if abs(values[t] - values[t - 1] - flows[t]) > 0]
+                if not bad and moved and all(abs(bases[t - 1] - v) <= 1e-9 * abs(v) for t in moved) and all(x == x for x in index):
+                    ctx.count("renorm:base-equals-v-throughout")
+                    for t in range(T):
+                        if not abs(real[t] - index[t]) <= 1e-9 * max(1.0, abs(index[t])):
+                            ctx.violation("C17/renorm-vs-index", "date#%d: renormalised by the notional held throughout (%r) gives %r, the strategy's index is %r"
+                                          % (t, v, real[t], index[t]), rd)
+                            break
+            cases.append((rd, real))
+            lines.append("report renorm %s %s %s %s" % (E.tF(par), E.tF(v), E.tL(values, E.tF), E.tL(flows, E.tF)))
+    outs = leanrun.run_lines(lines)
+    nd = 0
+    bit = tot = 0
+    for (rd, real), line in zip(cases, outs):
+        if not line.startswith("ok "):
+            ctx.disagreement(corr, "model answered %r" % line[:120], rd)
+            nd += 1
+            continue
+        t = E._Toks(line[3:])
+        model = t.lst(lambda: t.opt(t.flt))
+        ok = len(model) == len(real)
+        if ok:
+            for i, (r, m) in enumerate(zip(real, model)):
+                tot += 1
+                mm = float("nan") if m is None else m
+                if (r != r) and (mm != mm):
+                    bit += 1
+                    continue
+                if r == mm:
+                    bit += 1
+                    continue
+                if not abs(r - mm) <= 1e-9 * max(1.0, abs(r), abs(mm)):
+                    ok = False
+                    ctx.disagreement(corr, "row %d: real %r, model %r (v = %r)" % (i, r, mm, rd["renorm_v"]), rd)
+                    break
+        else:
+            ctx.disagreement(corr, "real series has %d rows, model %d" % (len(real), len(model)), rd)
+        if not ok:
+            nd += 1
+    ctx.count("renorm:floats-compared", tot)
+    ctx.count("renorm:floats-bit-identical", bit)
+    ctx.protocols.append((corr, len(cases), nd))
+
+
 def run(ctx, bt):
     from .. import whole_run as _W
     # complete fixed-income backtests executed end to end by the model (ProgFI node functions: gate, WeighSpecified, SetNotional, Rebalance)
@@ -247,6 +364,7 @@ def run(ctx, bt):
         ctx.evaluations += 1
         run_program(ctx, bt, spec)
     _run_steps(ctx, bt)
+    renorm_protocol(ctx, bt, ctx.scale(30, 400))
 
 
 def _run_steps(ctx, bt):
@@ -267,6 +385,8 @@ def search(ctx, bt):
 
 def replay(bt, data, ctx):
     case = data["case"]
+    if "renorm_v" in case:
+        return renorm_protocol(ctx, bt, 0, fixed=[case])
     if case.get("mode") == "program":
         return run_program(ctx, bt, case)
     spec = case["spec"]
